@@ -21,6 +21,7 @@ import z3
 
 from .core import SV, CheckerError, ExcValue, OutOfSubset, Symbolic, SymRaise, is_sym, kind_of, to_z3
 from . import ops
+from . import num
 from .models import model, method_model, SymCallable, MODELS
 
 R = z3.RealSort()
@@ -63,7 +64,9 @@ class STensor(Symbolic):
     # ------------------------------------------------------------------ construction helpers
     @staticmethod
     def sym(cx, name, shape, dtype="real"):
-        sort = {"real": R, "bool": B, "int": I}[dtype]
+        sort = {"real": R, "bool": B, "int": I, "fp32": num.F32, "fp64": num.F64}[dtype]
+        if dtype.startswith("fp"):
+            dtype = "real"   # a float tensor whose elements are IEEE values
         nm = name if cx is None else name
         if len(shape) == 0:
             c = z3.Const(nm, sort)
@@ -143,11 +146,11 @@ class STensor(Symbolic):
         raise OutOfSubset("int() of a non-scalar tensor")
 
     def _abs(self, it):
-        return unary(self, lambda e: z3.If(e >= 0, e, -e))
+        return unary(self, num.absv)
 
     def _unop(self, it, name, node):
         if name == "neg":
-            return unary(self.as_num(), lambda e: -e)
+            return unary(self.as_num(), num.neg)
         if name == "pos":
             return self
         if name == "invert":
@@ -342,8 +345,7 @@ def unary(t, f, dtype=None):
     return STensor(t.shape_, lambda idx: f(t.fn(idx)), dtype or t.dtype)
 
 
-_ARITH = {"add": lambda x, y: x + y, "sub": lambda x, y: x - y, "mul": lambda x, y: x * y,
-          "truediv": lambda x, y: x / y}
+_ARITH = {"add": num.add, "sub": num.sub, "mul": num.mul, "truediv": num.div}
 
 
 def tensor_binop(it, name, a: STensor, b: STensor, node=None):
@@ -382,8 +384,7 @@ def tensor_binop(it, name, a: STensor, b: STensor, node=None):
                                        b.elem_real(_op_idx(idx, b.shape_, pb))), "real")
 
 
-_CMP = {"lt": lambda x, y: x < y, "le": lambda x, y: x <= y, "gt": lambda x, y: x > y,
-        "ge": lambda x, y: x >= y, "eq": lambda x, y: x == y, "ne": lambda x, y: x != y}
+_CMP = {"lt": num.lt, "le": num.le, "gt": num.gt, "ge": num.ge, "eq": num.eq, "ne": num.ne}
 
 
 def tensor_compare(it, name, a, b, node=None):
@@ -860,7 +861,7 @@ def t_masked_fill(it, t, mask, value):
         raise OutOfSubset("masked_fill with non-scalar value")
     if t.dtype == "real":
         ve = v.elem_real(())
-        return STensor(shape, lambda idx: z3.If(mask.fn(_op_idx(idx, mask.shape_, pb)), ve, t.fn(_op_idx(idx, t.shape_, pa))), "real")
+        return STensor(shape, lambda idx: num.ite(mask.fn(_op_idx(idx, mask.shape_, pb)), ve, t.fn(_op_idx(idx, t.shape_, pa))), "real")
     if t.dtype == "int":
         vz = z3.simplify(v.fn(()))
         if v.dtype == "int":
@@ -1083,7 +1084,7 @@ def m_where(it, c, a, b):
     def fn(idx):
         ea = a.elem_real(_op_idx(idx, a.shape_, pa2)) if real else a.fn(_op_idx(idx, a.shape_, pa2))
         eb = b.elem_real(_op_idx(idx, b.shape_, pb2)) if real else b.fn(_op_idx(idx, b.shape_, pb2))
-        return z3.If(c.fn(_op_idx(idx, c.shape_, pc)), ea, eb)
+        return num.ite(c.fn(_op_idx(idx, c.shape_, pc)), ea, eb) if real else z3.If(c.fn(_op_idx(idx, c.shape_, pc)), ea, eb)
     return STensor(shape, fn, "real" if real else a.dtype)
 
 
